@@ -1,380 +1,1262 @@
 """C16 - layer definitions are well-formed: one layer per module, unique names.
 
-  C16.R1  a `str | list[str]` parameter is normalised before anything iterates it
-  C16.R2  LayerRule.are_named: exactly one subject layer (truth table of the guard over side / subject present / argument kind)
-  C16.R3  builder guards dominate the state writes; the duplicate-module check compares against all stored modules, materialised
+  C16.R1  a `str | list[str]` value is normalised before anything iterates it (rules/c16_r1.py: flow-sensitive, interprocedural)
+  C16.R2  LayerRule.are_named: exactly one subject layer (configuration errors raised <=> subject side and (subject present or list));
+          nothing is added before that guard; the side flag of the wrapped Rule follows the layer-rule language (set by layers_that,
+          untouched by the behaviour words and by are_named itself, cleared by the access words); when are_named decides on state
+          of LayerRule's own, the public words are explored as transformers of (own state, side flag) and the guard must agree with
+          the side of the wrapped rule in every reachable state
+  C16.R3  builder guards dominate the state writes; the duplicate-module check compares the whole normalised argument against the
+          materialised identifiers of all stored modules (whatever key is compared - names, key tuples, filter objects - must be equal,
+          under abstract dataclass / __eq__ equality, for a stored filter of *every* stored class with the supplied name); the 'pending' test agrees with the stored values; architecture guards
   C16.R4  accepted definitions are stored faithfully (whole list, in order, under the single pending layer) and read back unchanged
+
+All anchors are public API names (`LayeredArchitecture.layer/containing_modules/have_modules_with_names_matching/__getitem__/__str__`,
+`LayerRule.based_on/layers_that/are_named` and the methods the abstract language classes declare, `Rule.modules_that`,
+`ModuleNameFilter`, `ModuleNameRegexFilter`, `ImproperlyConfigured`).  The public methods are *interpreted* by the symbolic executor
+(rules/c16_sym.py); private helpers, attribute names, local names, loop-vs-comprehension and guard spellings do not matter.
 """
 
 from __future__ import annotations
 
-import ast
-
-from core.guards import atom, atoms_of, equivalent, f_and, f_not, f_or, implies, show
-from core.loader import AnalysisError, FuncInfo, Repo, ancestors, calls_in, header, norm, own_nodes, parent
+from core.guards import f_and, f_not, f_or
+from core.loader import AnalysisError, ClassInfo, FuncInfo, Repo
 from core.report import Result
-from core.types import kind, members
 
-from .common import cfg_of, conds, dotted, guard_formula, is_attr_call, loops_around, stmt_of, truth, types_of, where
+from .c16_logic import Enc, equivalent, facts, implies, mentions, satisfiable, strip_wrappers
+from .c16_r1 import RawFlow, seeds
+from .c16_sym import NONE_T, SELF, Event, Run, SymExec, Term, is_term, phi_leaves, show, show_pc, subterms
+from .common import types_of
 
-LAYER_RULE = "pytestarch.query_language.layered_architecture_rule"
-RULE = "pytestarch.query_language.rule"
-ITERATING_BUILTINS = {"set", "list", "tuple", "sorted", "len", "frozenset", "enumerate", "zip", "map", "filter", "iter", "sum", "any", "all", "min", "max", "reversed"}
+CONFIG_ERROR = "ImproperlyConfigured"
+MUTATORS = {"append", "extend", "add", "update", "insert", "remove", "pop", "clear", "setdefault", "discard", "sort", "__iop__", "__setitem__", "popitem", "reverse"}
 
 
-def is_union_str_list(ann: ast.expr | None) -> bool:
-    if ann is None:
+# --------------------------------------------------------------------------- anchors
+
+
+def public_class(repo: Repo, name: str) -> ClassInfo:
+    cs = [c for c in repo.classes.values() if c.name == name]
+    if len(cs) != 1:
+        raise AnalysisError(f"public class {name} not found exactly once ({len(cs)})")
+    return cs[0]
+
+
+def public_method(repo: Repo, ci: ClassInfo, name: str) -> FuncInfo:
+    m = repo.lookup_method(ci, name)
+    if m is None or m.is_abstract:
+        raise AnalysisError(f"public method {ci.name}.{name} not found")
+    return m
+
+
+def declared_in(repo: Repo, ci: ClassInfo, base_name: str) -> list[str]:
+    """Names of the abstract methods the language class `base_name` (a base of ci) declares."""
+    for c in repo.mro(ci):
+        if c.name == base_name:
+            return [n for n, m in c.methods.items() if m.is_abstract]
+    raise AnalysisError(f"{ci.name} no longer implements the language class {base_name}")
+
+
+def K(fi: FuncInfo, role: str) -> str:
+    return f"{fi.relpath}::{fi.qualname}::{role}"
+
+
+def verdict(res: Result, r: Run, rule: str, key: str, ok: bool, detail: str, where: str = "", kind: str = "structural", nontrivial: bool = True) -> None:
+    """A negative verdict needs the whole method to have been followed: with repo calls / statements the executor could not
+    follow, the construct is undecided instead."""
+    blind = [f"call of {e.data['targets'][0].split('::')[-1]} not followed" for e in r.of("opaque")] + list(r.notes)
+    if not ok and blind:
+        res.undecide(rule, key, f"{detail} - but the analysis of {r.fi.qualname} is incomplete: {blind[0]}", where)
+    else:
+        res.add(rule, key, ok, detail, where, nontrivial=nontrivial, kind=kind)
+
+
+# --------------------------------------------------------------------------- recognisers on terms
+
+
+class Builder:
+    """Facts about the LayeredArchitecture builder found by role."""
+
+    def __init__(self, repo: Repo, sx: SymExec, la: ClassInfo) -> None:
+        self.repo, self.sx, self.la = repo, sx, la
+        self.runs: dict[str, Run] = {}
+        self.store: Term | None = None
+        self.name_attrs: set[str] = set()
+        self.cursor = Cursor(self)
+
+    def run(self, name: str) -> Run:
+        if name not in self.runs:
+            self.runs[name] = self.sx.run(public_method(self.repo, self.la, name))
+        return self.runs[name]
+
+    # -- the mapping layer -> filters: the container of self into which `layer(name)` writes an entry under `name`
+    def find_store(self) -> None:
+        r = self.run("layer")
+        m = r.fi
+        pname = ("param", m.param_names[1])
+        cands = [e for e in r.of("setitem") if e.data["key"] == pname and _rooted_at_self(e.data["obj"])]
+        stores = {e.data["obj"] for e in cands}
+        if len(stores) != 1:
+            raise AnalysisError(f"{m.fq}: the mapping that receives the new layer under its name was not found ({len(stores)} candidates)")
+        self.store = stores.pop()
+
+    def store_events(self, r: Run) -> list[Event]:
+        return [e for e in r.of("setitem") if e.data["obj"] == self.store]
+
+    # -- pending layers: names of the entries whose value is empty
+    def pending(self, t: Term):
+        """(emptiness predicate, value variable) if t is the collection of the names of all entries of the store with an empty value."""
+        t = strip_wrappers(t)
+        if t[0] != "comp" or t[1] not in ("list", "set", "gen") or len(t[3]) != 1:
+            return None
+        (it, ifs), elt = t[3][0], t[2]
+        if not ifs:
+            return None
+        bv = ("bv", t[4])
+        if it == ("mcall", self.store, "items", ()):
+            key, val = ("item", bv, 0), ("item", bv, 1)
+        elif it == self.store or it == ("mcall", self.store, "keys", ()) or (it[0] == "call" and it[1] in ("list", "sorted", "tuple") and it[2] and it[2][0] == self.store):
+            key, val = bv, ("index", self.store, bv)
+        else:
+            return None
+        if elt != key:
+            return None
+        return self.emptiness(ifs[0] if len(ifs) == 1 else ("and", tuple(ifs)), val)
+
+    @staticmethod
+    def emptiness(c: Term, v: Term) -> str:
+        """Evaluates the test on an empty list and an empty tuple standing for the value: 'agnostic' (`not v`, `len(v) == 0`),
+        'list' (`v == []`), 'tuple' (`v == ()`), 'never' (true for neither, e.g. `v is None`) or '?' (not evaluable)."""
+
+        class Unknown(Exception):
+            pass
+
+        def val(t: Term, x):
+            if t == v:
+                return x
+            op = t[0]
+            if op == "const":
+                return t[1]
+            if op in ("list", "tuple", "set") and not t[1]:
+                return {"list": [], "tuple": (), "set": set()}[op]
+            if op == "not":
+                return not val(t[1], x)
+            if op == "and":
+                return all(val(y, x) for y in t[1])
+            if op == "or":
+                return any(val(y, x) for y in t[1])
+            if op == "call" and t[1] in ("len", "bool", "list", "tuple") and len(t[2]) == 1:
+                return {"len": len, "bool": bool, "list": list, "tuple": tuple}[t[1]](val(t[2][0], x))
+            if op == "cmp":
+                l, r = val(t[2], x), val(t[3], x)
+                if t[1] == "Is":
+                    if r is None or l is None:
+                        return l is r
+                    raise Unknown
+                import operator
+
+                fn = {"Eq": operator.eq, "Lt": operator.lt, "LtE": operator.le, "Gt": operator.gt, "GtE": operator.ge}.get(t[1])
+                if fn is None:
+                    raise Unknown
+                return fn(l, r)
+            raise Unknown
+
+        try:
+            on_list, on_tuple = bool(val(c, [])), bool(val(c, ()))
+        except (Unknown, TypeError):
+            return "?"
+        return {(True, True): "agnostic", (True, False): "list", (False, True): "tuple", (False, False): "never"}[(on_list, on_tuple)]
+
+    def canon(self, t: Term) -> str | None:
+        if t[0] == "comp" or t[0] == "call":
+            if self.pending(t) is not None:
+                return "#PENDING"
+        if self.layer_names(t):
+            return "#LAYERS"
+        return None
+
+    def layer_names(self, t: Term) -> bool:
+        """t is the mapping itself or a collection of all its keys (`d`, `d.keys()`, `list(d)`, `[k for k in d]`, `[k for k, _ in d.items()]`)."""
+        t = strip_wrappers(t, ("list", "tuple", "set", "frozenset", "sorted"))
+        if t == self.store or t == ("mcall", self.store, "keys", ()):
+            return True
+        if t[0] == "comp" and t[1] != "dict" and len(t[3]) == 1 and not t[3][0][1]:
+            it, bv = t[3][0][0], ("bv", t[4])
+            if it == ("mcall", self.store, "items", ()):
+                return t[2] == ("item", bv, 0)
+            return t[2] == bv and self.layer_names(it)
         return False
-    t = norm(ann).replace(" ", "")
-    if t.startswith("'") or t.startswith('"'):
-        t = t[1:-1]
-    parts = t.split("|")
-    return len(parts) == 2 and "str" in parts and any(p.startswith(("list[str", "Sequence[str", "List[str", "Iterable[str", "tuple[str")) for p in parts)
+
+    def pending_terms(self, r: Run) -> list[Term]:
+        seen: list[Term] = []
+        for e in r.events:
+            for src in (e.pc, tuple(v for v in e.data.values() if isinstance(v, tuple))):
+                for x in subterms(src):
+                    if x[0] == "comp" and x not in seen and self.pending(x) is not None:
+                        seen.append(x)
+        return seen
+
+    def single_pending(self, key: Term) -> bool:
+        """key is `P[0]` / `P[-1]` / the only element unpacked from P / `P.pop()` / `next(iter(P))` for a pending collection P."""
+        if key[0] == "index" and key[2] in (("const", 0), ("const", -1)) and self.pending(key[1]) is not None:
+            return True
+        if key[0] == "unpack" and key[3] == 1 and self.pending(key[1]) is not None:
+            return True
+        if key[0] == "mcall" and key[2] == "pop" and self.pending(key[1]) is not None:
+            return True
+        if key[0] == "call" and key[1] in ("next", "min", "max") and key[2]:
+            inner = key[2][0]
+            if inner[0] == "call" and inner[1] == "iter" and inner[2]:
+                inner = inner[2][0]
+            return self.pending(inner) is not None
+        return False
+
+    # -- attributes of a name filter that return the name it was built from (`identifier`, `name`)
+    def find_name_attrs(self) -> None:
+        mnf = public_class(self.repo, "ModuleNameFilter")
+        fields = list(mnf.ann_attrs)
+        self.name_attrs = set(fields[:1])
+        for c in self.repo.mro(mnf):
+            for n, m in c.methods.items():
+                if m.is_property and not m.is_abstract and c is mnf:
+                    r = self.sx.run(m)
+                    if len(r.returns) == 1 and r.returns[0][1][0] == "attr" and r.returns[0][1][1] == SELF and r.returns[0][1][2] in fields[:1]:
+                        self.name_attrs.add(n)
+        if not self.name_attrs:
+            raise AnalysisError("ModuleNameFilter: no attribute returning the module name found")
+
+    def all_identifiers(self, t: Term, pending_key_ok=None):
+        """Classifies the 'already assigned names' operand: ('all', materialised) | ('partial', why) | None (not derived from the store)."""
+        core, materialised = t, t[0] != "comp" or t[1] != "gen"
+        while core[0] == "call" and isinstance(core[1], str) and core[1] in ("set", "list", "frozenset", "tuple", "sorted") and len(core[2]) == 1:
+            core, materialised = core[2][0], True
+        if core[0] == "call" and core[1] in ("map", "filter", "iter"):
+            materialised = False
+        if not mentions(core, self.store):
+            return None
+        if core[0] != "comp" or core[1] == "dict":
+            return ("partial", f"`{show(core)[:80]}` is not the collection of the identifiers of all stored modules")
+        if core[1] == "gen" and core is t:
+            materialised = False
+        gens = core[3]
+        if len(gens) != 2:
+            return ("partial", f"`{show(core)[:80]}` does not walk the modules of every layer")
+        (it1, ifs1), (it2, ifs2) = gens
+        b1 = self._first_bv(core)
+        if it1 == ("mcall", self.store, "values", ()):
+            inner = b1
+        elif it1 == ("mcall", self.store, "items", ()):
+            inner = ("item", b1, 1)
+        elif it1 == self.store or it1 == ("mcall", self.store, "keys", ()):
+            inner = ("index", self.store, b1)
+        else:
+            return ("partial", f"it walks `{show(it1)[:60]}` instead of every entry of the layer mapping")
+        if it2 != inner:
+            return ("partial", f"the inner loop walks `{show(it2)[:60]}`, not the modules of the current entry")
+        if ifs1 or ifs2:
+            return ("partial", f"entries are filtered by `{show((ifs1 + ifs2)[0])[:60]}`")
+        b2 = ("bv", b1[1] + 1)
+        if not mentions(core[2], b2):
+            return ("partial", f"it collects `{show(core[2])[:60]}`, which does not depend on the stored filter")
+        return ("all", materialised, core[2], b2)  # what is collected per stored filter is judged by key_agreement()
+
+    # -- abstract equality of the keys a duplicate check compares
+    M = ("sym", "m")
+
+    def reduce(self, t, env: dict):
+        """t with bound variables replaced (env) and attribute reads on constructed values evaluated (fields, properties)."""
+        if not isinstance(t, tuple):
+            return t
+        if is_term(t) and t in env:
+            return env[t]
+        if is_term(t) and t[0] == "attr":
+            x = self.reduce(t[1], env)
+            if x[0] == "new":
+                for k, v in x[3]:
+                    if k == t[2]:
+                        return v
+                ci = self.repo.classes.get(x[1])
+                m = self.repo.lookup_method(ci, t[2]) if ci else None
+                if m is not None and m.is_property and not m.is_abstract:
+                    r = self.sx.run(m, self_term=x)
+                    if len(r.returns) == 1 and not r.of("opaque"):
+                        return self.reduce(r.returns[0][1], {})
+            return ("attr", x, t[2])
+        return tuple(self.reduce(c, env) for c in t)
+
+    def tv(self, t: Term):
+        """Three-valued truth of a reduced term: True / False / None (unknown)."""
+        op = t[0]
+        if op == "const":
+            return bool(t[1])
+        if op == "builtin" and t[1] == "NotImplemented":
+            return False  # python falls back to identity, and the compared objects are distinct
+        if op == "not":
+            v = self.tv(t[1])
+            return None if v is None else not v
+        if op in ("and", "or"):
+            vs = [self.tv(x) for x in t[1]]
+            if op == "and":
+                return False if False in vs else (None if None in vs else True)
+            return True if True in vs else (None if None in vs else False)
+        if op == "phi":
+            c = self.tv(t[1])
+            return None if c is None else self.tv(t[2] if c else t[3])
+        if op == "isinstance" and t[1][0] == "new":
+            ci = self.repo.classes.get(t[1][1])
+            names = {c.name for c in self.repo.mro(ci)} if ci else set()
+            return bool(names & set(t[2])) if ci else None
+        if op == "cmp" and t[1] == "Eq":
+            return self.abstract_eq(t[2], t[3])
+        if op == "cmp" and t[1] == "Is":
+            a, c = t[2], t[3]
+            if a[0] == "call" and a[1] == "type" and c[0] == "call" and c[1] == "type" and a[2][0][0] == "new" and c[2][0][0] == "new":
+                return a[2][0][1] == c[2][0][1]
+            if a[0] == "const" and c[0] == "const":
+                return a[1] is c[1]
+            if (a[0] == "new") != (c[0] == "new") and "const" in (a[0], c[0]):
+                return False
+        return None
+
+    def abstract_eq(self, a: Term, c: Term):
+        """`a == c` for reduced key terms: True / False / None."""
+        if a[0] == "new" and c[0] == "new":
+            for x, y in ((a, c), (c, a)):
+                ci = self.repo.classes.get(x[1])
+                eq = self.repo.lookup_method(ci, "__eq__") if ci else None
+                if eq is not None and not eq.is_abstract:
+                    r = self.sx.run(eq, self_term=x, args={eq.param_names[1]: y})
+                    if r.of("opaque") or r.notes:
+                        return None
+                    for pc, v, _h in r.returns:
+                        conds = [self.tv(self.reduce(t, {})) for t, _pol in pc]
+                        if all(cv is not None and cv == pol for cv, (_t, pol) in zip(conds, pc)):
+                            return self.tv(self.reduce(v, {}))
+                    return None
+            ca, cc = self.repo.classes.get(a[1]), self.repo.classes.get(c[1])
+            if ca is None or cc is None:
+                return None
+            if not (any(k.is_dataclass for k in self.repo.mro(ca)) and any(k.is_dataclass for k in self.repo.mro(cc))):
+                return False  # plain objects compare by identity
+            if a[1] != c[1]:
+                return False  # dataclass equality includes the class
+            fa, fc = dict(a[3]), dict(c[3])
+            if set(fa) != set(fc):
+                return None
+            vs = [self.abstract_eq(fa[k], fc[k]) for k in fa]
+            return False if False in vs else (None if None in vs else True)
+        if a == c:
+            return True
+        if a[0] == "const" and c[0] == "const":
+            return a[1] == c[1]
+        if a[0] in ("tuple", "list") and c[0] == a[0]:
+            if len(a[1]) != len(c[1]):
+                return False
+            vs = [self.abstract_eq(x, y) for x, y in zip(a[1], c[1])]
+            return False if False in vs else (None if None in vs else True)
+        kinds = {a[0], c[0]}
+        if "new" in kinds and kinds & {"const", "sym", "tuple", "list"}:
+            return False
+        if kinds == {"const", "tuple"} or kinds == {"const", "list"} or kinds == {"tuple", "list"}:
+            return False
+        return None
+
+    def stored_filter_classes(self) -> list[str]:
+        out: list[str] = []
+        for n in ("containing_modules", "have_modules_with_names_matching"):
+            for e in self.store_events(self.run(n)):
+                for x in subterms(e.data["value"]):
+                    if x[0] == "new" and x[1] not in out:
+                        out.append(x[1])
+        return out
+
+    def filter_named(self, cls_fq: str) -> Term | None:
+        """A stored filter of class cls_fq whose identifier is the symbolic name M."""
+        ci = self.repo.classes.get(cls_fq)
+        if ci is None:
+            return None
+        ident = sorted(a for a in self.name_attrs if any(a in c.methods and c.methods[a].is_abstract for c in self.repo.classes.values())) or sorted(self.name_attrs)
+        fields = [n for c in reversed(self.repo.mro(ci)) for n in c.ann_attrs]
+        for f in fields:
+            obj = ("new", cls_fq, (), tuple(sorted((g, self.M if g == f else ("sym", g)) for g in fields)))
+            if self.reduce(("attr", obj, ident[0]), {}) == self.M:
+                return obj
+        return None
+
+    def key_agreement(self, new_key: Term, elt: Term, bv: Term):
+        """('ok', '') when the key of a supplied module equals the key collected from every stored filter (of any stored class) with
+        the same identifier; ('bad', why) with the class that is missed; ('unknown', why)."""
+        classes = self.stored_filter_classes()
+        if not classes:
+            return ("unknown", "the classes of the stored filters are not known")
+        for cls in classes:
+            f = self.filter_named(cls)
+            if f is None:
+                return ("unknown", f"no instance of {cls.rsplit('.', 1)[-1]} with a given identifier could be constructed")
+            k = self.reduce(elt, {bv: f})
+            eq = self.abstract_eq(new_key, k)
+            cname = cls.rsplit(".", 1)[-1]
+            if eq is False:
+                return ("bad", f"it compares `{show(new_key)[:60]}` (per supplied module m) with `{show(k)[:60]}` (per stored {cname} with identifier m), which are never equal: a name that is already assigned through a {cname} is not recognised as a duplicate")
+            if eq is None:
+                return ("unknown", f"whether `{show(new_key)[:60]}` equals `{show(k)[:60]}` (stored {cname} with the same identifier) could not be decided")
+        return ("ok", "")
+
+    @staticmethod
+    def _first_bv(comp: Term) -> Term:
+        return ("bv", comp[4])
 
 
-def _normaliser_functions(repo: Repo) -> set[str]:
-    """Functions whose body is `return x if isinstance(x, list) else [x]` (or the str-branch form)."""
-    out = set()
-    for f in repo.all_functions():
-        if isinstance(f.node, ast.Lambda):
+def _rooted_at_self(t: Term) -> bool:
+    while t[0] == "attr":
+        t = t[1]
+        if t == SELF:
+            return True
+    return False
+
+
+def normalised(t: Term, p: Term, enc: Enc, pc_f) -> bool:
+    """t is the list form of the raw `str | list` parameter p under the path condition pc_f."""
+    islist = enc.truth(("isinstance", p, ("list",)))
+    if t[0] == "phi":
+        c = enc.truth(t[1])
+        return normalised(t[2], p, enc, f_and([pc_f, c])) and normalised(t[3], p, enc, f_and([pc_f, f_not(c)]))
+    if t == p:
+        return implies(pc_f, islist)
+    if t == ("list", (p,)):
+        return implies(pc_f, f_not(islist))
+    if t[0] == "call" and t[1] == "list" and len(t[2]) == 1:
+        return normalised(t[2][0], p, enc, pc_f)
+    return False
+
+
+def derived_part(t: Term, p: Term) -> bool:
+    return mentions(t, p)
+
+
+# --------------------------------------------------------------------------- R1
+
+
+def run_r1(repo: Repo, T, res: Result) -> None:
+    rf = RawFlow(repo, T)
+    sd = seeds(repo)
+    for f, pname, ann in sd:
+        rf.analyse(f, pname)
+    flagged_in: dict[str, int] = {}
+    for fi, node, how, origin in rf.sites.values():
+        flagged_in[fi.fq] = flagged_in.get(fi.fq, 0) + 1
+        res.add(
+            "C16.R1",
+            f"{fi.relpath}::{fi.qualname}::{how}",
+            False,
+            f"`{how}` iterates a value that may still be the bare string handed to {origin}: for the documented string form this iterates the *characters* of the name",
+            f"{fi.relpath}:{getattr(node, 'lineno', 0)}",
+            kind="flow",
+        )
+    for f, pname, ann in sd:
+        res.add("C16.R1", f"{f.relpath}::{f.qualname}::parameter {pname}", True, f"`{pname}: {ann}` followed through assignments, helpers and hand-offs: only type tests, wrapping and same-typed hand-offs touch the raw value", f"{f.relpath}:{f.node.lineno}", nontrivial=False)
+    required = {("LayeredArchitecture", "containing_modules"), ("LayerRule", "are_named")}
+    have = {(f.cls.name, f.name) for f, _p, _a in sd if f.cls is not None}
+    res.floor("C16.R1", len(required), len(required & have))
+    res.extra["r1_fixture"] = r1_fixture_selfcheck()
+
+
+def r1_fixture_selfcheck() -> str:
+    """Positive fixture (engine/fixtures/c16_union_params.py): every `unsafe_*` function must be flagged, no `safe_*` one."""
+    import ast
+    import shutil
+    import tempfile
+    from pathlib import Path
+
+    fx = Path(__file__).resolve().parents[1] / "fixtures" / "c16_union_params.py"
+    tmp = Path(tempfile.mkdtemp(prefix="pta-fixture-"))
+    try:
+        (tmp / "src" / "pytestarch").mkdir(parents=True)
+        shutil.copy(fx, tmp / "src" / "pytestarch" / "fixture_union_params.py")
+        repo = Repo(tmp)
+        rf = RawFlow(repo, types_of(repo))
+        for f, pname, _ann in seeds(repo):
+            rf.analyse(f, pname)
+        flagged = {fi.name for fi, _n, _h, _o in rf.sites.values()}
+        tree = ast.parse(fx.read_text())
+        want_unsafe = [n.name for n in tree.body if isinstance(n, ast.FunctionDef) and n.name.startswith("unsafe_")]
+        want_safe = [n.name for n in tree.body if isinstance(n, ast.FunctionDef) and n.name.startswith("safe_")]
+        bad = [n for n in want_unsafe if n not in flagged and not any(fl.startswith("_helper_of_" + n) for fl in flagged)] + [n for n in want_safe if n in flagged or any(fl.startswith("_helper_of_" + n) for fl in flagged)]
+        if bad:
+            raise AnalysisError(f"C16.R1 fixture: idioms not classified as expected: {bad} (flagged: {sorted(flagged)})")
+        return f"{len(want_unsafe)} unsafe and {len(want_safe)} safe idioms of engine/fixtures/c16_union_params.py classified as expected"
+    finally:
+        shutil.rmtree(tmp, ignore_errors=True)
+
+
+# --------------------------------------------------------------------------- R3 / R4: LayeredArchitecture
+
+
+# --------------------------------------------------------------------------- cursor attributes (fallback of the pending-layer rules)
+
+
+class Cursor:
+    """An attribute F of the builder that `layer(name)` sets to `name` ("the layer being defined").
+
+    Proves the invariant J(F): *every layer whose stored definition is empty is named by self.F* by induction over the public
+    methods: on every path that returns normally, (1) every entry written with a possibly empty value is written under the final
+    value of F, and (2) the layers that were pending before (all named by the old F, by J) are still covered: F is unchanged, or
+    no layer was pending (guard), or the old F's entry was overwritten with a provably non-empty value.
+    """
+
+    def __init__(self, b: Builder) -> None:
+        self.b = b
+        self.cache: dict[str, tuple[bool, str, str]] = {}
+
+    def candidates(self) -> list[str]:
+        r = self.b.run("layer")
+        name = ("param", r.fi.param_names[1])
+        return sorted({e.data["attr"] for e in r.of("setattr") if e.data["obj"] == SELF and e.data["value"] == name})
+
+    def methods(self) -> list[str]:
+        la = self.b.la
+        return [n for n, m in la.methods.items() if not m.is_abstract and not m.is_property and (not n.startswith("_") or n in ("__setitem__", "__delitem__")) and n != "__init__"]
+
+    @staticmethod
+    def nonempty(v: Term) -> bool:
+        return v[0] in ("list", "tuple", "set") and len(v[1]) >= 1
+
+    def prove(self, f: str) -> tuple[bool, str, str]:
+        """(holds, why not, where)."""
+        if f in self.cache:
+            return self.cache[f]
+        b = self.b
+        cur = ("attr", SELF, f)
+        enc = Enc(b.canon)
+        out = (True, "", "")
+        for name in self.methods():
+            r = b.run(name)
+            if r.of("opaque") or r.notes:
+                if b.store_events(r) or any(e.data["attr"] == f and e.data["obj"] == SELF for e in r.of("setattr")):
+                    out = (False, f"{name} could not be followed completely", "")
+                    break
+                continue
+            pend = b.pending_terms(r)
+            for pc, _v, heap in r.returns:
+                pcf = enc.pc(pc)
+                final = heap.get((SELF, f), cur)
+                writes = [e for e in b.store_events(r) if satisfiable(f_and([enc.pc(e.pc), pcf]))]
+                for e in writes:
+                    if not self.nonempty(e.data["value"]) and e.data["key"] != final:
+                        what = "the marker of a new layer" if e.data["value"] in (("list", ()), ("tuple", ())) else f"a possibly empty definition (`{show(e.data['value'])[:60]}`)"
+                        out = (False, f"{name} writes {what} under `{show(e.data['key'])[:50]}` but leaves the cursor `{f}` at `{show(final)[:40]}`: the layer has no modules and is no longer the one the cursor names", e.where)
+                        break
+                if not out[0]:
+                    break
+                if final != cur:
+                    covered = (
+                        (pend and implies(pcf, enc.len_atom(pend[0], 0)))
+                        or implies(pcf, enc.truth(("cmp", "Is", cur, NONE_T)))
+                        or any(e.data["key"] == cur and self.nonempty(e.data["value"]) for e in writes)
+                    )
+                    if not covered:
+                        out = (False, f"{name} moves the cursor `{f}` to `{show(final)[:40]}` although the layer it named may still be without modules", f"{r.fi.relpath}:{r.fi.node.lineno}")
+                        break
+            if not out[0]:
+                break
+        self.cache[f] = out
+        return out
+
+
+
+def check_rejections(res: Result, r: Run, enc: Enc, accept, what: str, also=None) -> None:
+    """Every call that returns normally satisfies the acceptance condition, and what is raised otherwise is a configuration error."""
+    m = r.fi
+    key = K(m, "[violations raise a configuration error]")
+    silent = [pc for pc, _v, _h in r.returns if not implies(enc.pc(pc), accept) or (also is not None and not also(pc))]
+    other = [e for e in r.of("raise") if e.data["cls"] != CONFIG_ERROR and not e.in_loop and satisfiable(f_and([enc.pc(e.pc), f_not(accept)]))]
+    if silent:
+        verdict(res, r, "C16.R3", key, False, f"{m.name} can return normally although {what} (path: `{show_pc(silent[0])[:140]}`): the ill-formed call is not rejected", f"{m.relpath}:{m.node.lineno}", kind="dominance")
+    elif other:
+        verdict(res, r, "C16.R3", key, False, f"an ill-formed call raises `{other[0].data['cls']}` instead of a configuration error", other[0].where, kind="dominance")
+    else:
+        verdict(res, r, "C16.R3", key, True, f"every call that returns normally satisfies the guard; everything else ends in {CONFIG_ERROR}", f"{m.relpath}:{m.node.lineno}", kind="dominance")
+
+
+def check_layer(b: Builder, res: Result) -> None:
+    r = b.run("layer")
+    m = r.fi
+    name = ("param", m.param_names[1])
+    enc = Enc(b.canon)
+    evs = b.store_events(r)
+    in_store = enc.truth(("cmp", "In", name, b.store))
+    pend = b.pending_terms(r)
+    no_pending = enc.len_atom(pend[0], 0) if pend else None
+    for e in evs:
+        pcf = enc.pc(e.pc)
+        if e.in_loop:
+            res.undecide("C16.R3", K(m, "opens the layer"), "the new layer is written inside a loop that could not be summarised", e.where)
             continue
-        body = [s for s in f.body if not (isinstance(s, ast.Expr) and isinstance(s.value, ast.Constant))]
-        if len(body) == 1 and isinstance(body[0], ast.Return) and body[0].value is not None and _is_normalising_expr(body[0].value, None):
-            out.add(f.name)
-    return out
+        ok1 = no_pending is not None and implies(pcf, no_pending)
+        flag = None if ok1 else next((f for f in b.cursor.candidates() if implies(pcf, enc.truth(("cmp", "Is", ("attr", SELF, f), NONE_T)))), None)
+        if flag is not None:
+            holds, why, where_ = b.cursor.prove(flag)
+            if holds:
+                res.undecide("C16.R3", K(m, "[no pending layer]"), f"layer() is guarded by the cursor `{flag}` instead of the stored definitions; every pending layer is named by it, but that it is reset only once the layer has modules is not established", e.where)
+            else:
+                verdict(res, r, "C16.R3", K(m, "[no pending layer]"), False, f"a new layer can be opened while another layer still has no modules: layer() trusts the cursor `{flag}`, but {why}", where_ or e.where, kind="dominance")
+        if ok1:
+            d1 = "a new layer is opened only when no layer is waiting for its modules"
+        elif no_pending is None:
+            d1 = f"a new layer can be opened while another layer still has no modules: the guard `{show_pc(e.pc)[:140]}` does not consult the stored definitions (a layer counts as pending while its stored module sequence is empty)"
+        else:
+            d1 = f"a new layer can be opened while another layer still has no modules (guard: `{show_pc(e.pc)[:140]}`)"
+        if flag is None:
+            verdict(res, r, "C16.R3", K(m, "[no pending layer]"), ok1, d1, e.where, kind="dominance")
+        ok2 = implies(pcf, f_not(in_store))
+        verdict(res, r, "C16.R3", K(m, "[unique name]"), ok2, "a layer name can be defined once" if ok2 else f"a layer name can be defined twice: the second definition replaces the first (guard: `{show_pc(e.pc)[:140]}`)", e.where, kind="dominance")
+        v = e.data["value"]
+        ok3 = v[0] in ("list", "tuple", "set") and not v[1]
+        verdict(res, r, "C16.R3", K(m, "[opens empty]"), ok3, "the new layer starts without modules" if ok3 else f"the new layer is opened with `{show(v)[:60]}` instead of an empty definition", e.where, nontrivial=False)
+    if not evs:
+        raise AnalysisError(f"{m.fq}: no write of the new layer")
+    if not r.returns:
+        verdict(res, r, "C16.R3", K(m, "accepts a new name"), False, "layer() never returns normally", kind="structural")
+    elif no_pending is not None:
+        check_rejections(res, r, enc, f_and([no_pending, f_not(in_store)]), "a layer is still waiting for its modules or the name is already defined")
 
 
-def _is_normalising_expr(e: ast.expr, p: str | None) -> str | None:
-    """`p if isinstance(p, list) else [p]` / `[p] if isinstance(p, str) else p` -> name of p."""
-    if not isinstance(e, ast.IfExp):
+def check_modules_method(b: Builder, res: Result, mname: str, union_param: bool) -> None:
+    r = b.run(mname)
+    m = r.fi
+    p = ("param", m.param_names[1])
+    enc = Enc(b.canon, {p} if union_param else set())
+    evs = b.store_events(r)
+    if not evs:
+        verdict(res, r, "C16.R4", K(m, "[stored under the pending layer]"), False, f"{m.qualname} does not store the supplied modules in the layer mapping", f"{m.relpath}:{m.node.lineno}", kind="structural")
+        return
+    pend = b.pending_terms(r)
+    for e in evs:
+        pcf = enc.pc(e.pc)
+        if e.in_loop:
+            res.undecide("C16.R3", K(m, "[exactly one pending layer]"), "the modules are stored inside a loop that could not be summarised", e.where)
+            continue
+        one = enc.len_atom(pend[0], 1) if pend else None
+        ok = one is not None and implies(pcf, one)
+        verdict(res, r, 
+            "C16.R3",
+            K(m, "[exactly one pending layer]"),
+            ok,
+            "modules are stored only when exactly one layer is pending" if ok else f"modules can be stored although not exactly one layer is waiting for its modules (guard: `{show_pc(e.pc)[:160]}`)" + ("" if pend else "; the guard does not consult the stored definitions"),
+            e.where,
+            kind="dominance",
+        )
+        key = e.data["key"]
+        ok = b.single_pending(key) and e.data["how"] in ("[]=", "update")  # (setdefault would keep the empty marker)
+        if not ok and key[0] == "attr" and key[1] == SELF and key[2] in b.cursor.candidates() and e.data["how"] in ("[]=", "update"):
+            holds, why, where_ = b.cursor.prove(key[2])
+            if holds and one is not None and implies(pcf, one):
+                verdict(res, r, "C16.R4", K(m, "[stored under the pending layer]"), True, f"stored under the cursor `{key[2]}`: every pending layer is named by it (invariant over all public methods) and exactly one layer is pending", e.where, kind="structural")
+            elif not holds:
+                verdict(res, r, "C16.R4", K(m, "[stored under the pending layer]"), False, f"the modules are stored under the cursor `{key[2]}`, which need not name the pending layer: {why}", where_ or e.where, kind="structural")
+            else:
+                res.undecide("C16.R4", K(m, "[stored under the pending layer]"), f"the modules are stored under the cursor `{key[2]}`; that it names the one pending layer is not established without a guard on the stored definitions", e.where)
+            ok = None
+        if ok is not None:
+            verdict(res, r, "C16.R4", K(m, "[stored under the pending layer]"), ok, "stored under the single pending layer" if ok else f"the modules are stored under `{show(key)[:80]}`, not under the one layer that is waiting for its modules", e.where, kind="structural")
+        v = e.data["value"]
+        if union_param:
+            check_dup_guard(b, res, r, m, e, p, enc)
+            check_image(b, res, r, m, e, p, enc)
+        else:
+            cls = v[1][0][1].rsplit(".", 1)[-1] if v[0] in ("list", "tuple") and len(v[1]) == 1 and v[1][0][0] == "new" else None
+            args = [x for x in (v[1][0][2] + tuple(val for _k, val in v[1][0][3]))] if cls else []
+            ok = cls == "ModuleNameRegexFilter" and args == [p]
+            verdict(res, r, "C16.R4", K(m, "[regex filter stored]"), ok, "exactly one regex filter built from the supplied pattern is stored" if ok else f"`{show(v)[:80]}` is not the single regex filter of the supplied pattern", e.where, kind="structural")
+        if one is not None and e is evs[-1]:
+            if union_param:
+                def dup_free(pc: tuple) -> bool:
+                    pcf = enc.pc(pc)
+                    for t, pol in facts(pc):
+                        got = classify_dup(b, t, pol, p, enc, pcf)
+                        if got is not None and got[0] == "ok":
+                            return True
+                        if got is None and classify_dup(b, t, not pol, p, enc, pcf) is None and mentions(t, b.store) and mentions(t, p):
+                            return True  # an unrecognised relation between the argument and the stored names: judged (as undecided) by the duplicate-guard obligation
+                    return False
+
+                check_rejections(res, r, enc, one, "not exactly one layer is waiting for its modules or a supplied module is already assigned", dup_free)
+            else:
+                check_rejections(res, r, enc, one, "not exactly one layer is waiting for its modules")
+
+
+def check_dup_guard(b: Builder, res: Result, r: Run, m: FuncInfo, e: Event, p: Term, enc: Enc) -> None:
+    """The store is reached only when no supplied module name is among the identifiers of all stored filters."""
+    pcf = enc.pc(e.pc)
+    verdicts: list[tuple[str, str]] = []  # ('ok'|'bad'|'unknown', detail)
+    for t, pol in facts(e.pc):
+        got = classify_dup(b, t, pol, p, enc, pcf)
+        if got is not None:
+            verdicts.append(got)
+    key = K(m, "duplicate-module guard")
+    oks = [v for v in verdicts if v[0] == "ok"]
+    bads = [v for v in verdicts if v[0] == "bad"]
+    if oks:
+        verdict(res, r, "C16.R3", key, True, oks[0][1], e.where, kind="dominance")
+    elif bads:
+        verdict(res, r, "C16.R3", key, False, bads[0][1], e.where, kind="dominance")
+    elif verdicts:
+        res.undecide("C16.R3", key, verdicts[0][1], e.where)
+    elif [t for t, _pol in facts(e.pc) if mentions(t, b.store) and mentions(t, p)]:
+        t = [t for t, _pol in facts(e.pc) if mentions(t, b.store) and mentions(t, p)][0]
+        res.undecide("C16.R3", key, f"the store is guarded by `{show(t)[:140]}`, which relates the supplied modules to the stored definitions in a way that is not recognised as a duplicate check", e.where)
+    else:
+        verdict(res, r, "C16.R3", key, False, f"no duplicate-module guard dominates the store (it is reached under `{show_pc(e.pc)[:160]}`)", e.where, kind="dominance")
+
+
+def classify_dup(b: Builder, t: Term, pol: bool, p: Term, enc: Enc, pcf) -> tuple[str, str] | None:
+    new = exist = None
+    member = False  # the existing names are consulted by repeated membership tests (must be materialised)
+    tested = bv = None  # membership forms: the expression (over the element variable bv of the new side) that is looked up
+    shape = t
+    if not pol:
+        core = strip_wrappers(t, ("list", "tuple", "sorted", "set", "frozenset"))
+        if core[0] == "mcall" and core[2] in ("intersection",) and len(core[3]) == 1:
+            new, exist = core[1], core[3][0]
+        elif core[0] == "binop" and core[1] == "BitAnd":
+            new, exist = core[2], core[3]
+        elif core[0] == "comp" and core[1] != "dict" and len(core[3]) == 1:
+            new, exist, member, tested = _membership(core[3][0])
+            bv = ("bv", core[4])
+        elif core[0] == "any" and len(core[1]) == 1:
+            new, exist, member, tested = _membership(core[1][0])
+            bv = ("bv", core[2])
+        elif core[0] == "call" and core[1] == "any" and len(core[2]) == 1 and core[2][0][0] == "comp" and len(core[2][0][3]) == 1:
+            c = core[2][0]
+            it, ifs = c[3][0]
+            bv = ("bv", c[4])
+            if c[2][0] == "cmp" and c[2][1] == "In":
+                new, exist, member, tested = _membership((it, ifs + (c[2],)))
+            else:
+                new, exist, member, tested = _membership((it, ifs))
+        else:
+            return None
+    else:
+        if t[0] == "mcall" and t[2] == "isdisjoint" and len(t[3]) == 1:
+            new, exist = t[1], t[3][0]
+        else:
+            return None
+    if new is None or exist is None:
         return None
-    t = e.test
-    if not (isinstance(t, ast.Call) and dotted(t.func) == "isinstance" and len(t.args) == 2 and isinstance(t.args[0], ast.Name)):
+    # operands may be written in either order
+    swapped = False
+    if b.all_identifiers(new) is not None and b.all_identifiers(exist) is None:
+        new, exist = exist, new
+        swapped = True
+        if member:
+            # `[x for x in existing if x in new]`: the new names are the membership-tested side; a list / set of them is fine
+            member = False
+    info = b.all_identifiers(exist)
+    if info is None:
+        if not derived_part(new, p):
+            return None
+        return ("unknown", f"the duplicate check `{show(shape)[:120]}` consults `{show(exist)[:60]}`, which is not recognisably derived from the stored definitions")
+    if not derived_part(new, p):
+        return ("bad", f"the duplicate check `{show(shape)[:120]}` does not test the supplied modules")
+    # the key compared per supplied module m: the element itself, or what a comprehension over the normalised argument builds
+    n = strip_wrappers(new, ("list", "tuple", "sorted", "set", "frozenset"))
+    if normalised(n, p, enc, pcf):
+        elem = b.M
+    elif n[0] == "comp" and n[1] != "dict" and len(n[3]) == 1 and not n[3][0][1] and normalised(strip_wrappers(n[3][0][0], ("list", "tuple", "sorted", "set", "frozenset", "iter")), p, enc, pcf):
+        elem = b.reduce(n[2], {("bv", n[4]): b.M})
+    else:
+        why = "only a part of the supplied modules" if any(x[0] == "slice" for x in subterms(n)) else "not the normalised (list) form of the supplied modules"
+        if n == p or any(x[0] == "slice" for x in subterms(n)) or n[0] in ("index",):
+            return ("bad", f"the duplicate check tests `{show(n)[:60]}`: {why}")
+        return ("unknown", f"the duplicate check tests `{show(n)[:60]}`, which is not recognised as the whole normalised argument")
+    if info[0] == "partial":
+        return ("bad", f"the duplicate check does not cover the modules of all layers: {info[1]}")
+    _all, materialised, elt, fbv = info
+    if swapped and tested is not None:
+        # `[f for f in <stored> if key(f) in <new>]`: the looked-up expression belongs to the stored side
+        elt, new_key = b.reduce(tested, {bv: elt}), elem
+    else:
+        new_key = elem if tested is None else b.reduce(tested, {bv: elem})
+    agree = b.key_agreement(new_key, elt, fbv)
+    if agree[0] == "bad":
+        return ("bad", f"the duplicate check `{show(shape)[:100]}` misses duplicates: {agree[1]}")
+    if agree[0] == "unknown":
+        return ("unknown", f"the duplicate check `{show(shape)[:100]}`: {agree[1]}")
+    if member and not materialised:
+        return ("bad", f"duplicates are found by membership tests in `{show(exist)[:80]}`, a one-shot iterator that is exhausted by the first name that is not assigned yet")
+    if not member and not materialised and t[0] == "binop":
+        return ("bad", f"`{show(exist)[:80]}` is a one-shot iterator, not a set")
+    return ("ok", "every supplied module (normalised list form) is compared with the identifiers of all stored module filters before the store")
+
+
+def _membership(gen: tuple):
+    """`[.. for x in NEW if key(x) in EXIST]` -> (NEW, EXIST, True, key(x)); the membership test must be the only filter."""
+    it, ifs = gen
+    if len(ifs) == 1 and ifs[0][0] == "cmp" and ifs[0][1] == "In":
+        return it, ifs[0][3], True, ifs[0][2]
+    return None, None, False, None
+
+
+def check_image(b: Builder, res: Result, r: Run, m: FuncInfo, e: Event, p: Term, enc: Enc) -> None:
+    """The stored value is the order-preserving image of the whole normalised list: one name filter per supplied module."""
+    v = e.data["value"]
+    pcf = enc.pc(e.pc)
+    key = K(m, "[whole normalised list, in order]")
+    core = strip_wrappers(v, ("list", "tuple"))
+    if core[0] != "comp" or core[1] not in ("list", "gen"):
+        if any(x[0] == "slice" for x in subterms(core)) and mentions(core, p):
+            verdict(res, r, "C16.R4", key, False, f"`{show(v)[:100]}` stores only a part of the supplied modules", e.where, kind="flow")
+        else:
+            res.undecide("C16.R4", key, f"the stored value `{show(v)[:100]}` is not recognised as one filter per supplied module", e.where)
+        return
+    if core[1] == "gen" and core is v:
+        verdict(res, r, "C16.R4", key, False, "a one-shot generator is stored instead of the list of filters", e.where, kind="flow")
+        return
+    gens, elt = core[3], core[2]
+    problems = []
+    if len(gens) != 1:
+        problems.append("more than one loop builds the stored filters")
+    else:
+        it, ifs = gens[0]
+        if ifs:
+            problems.append(f"supplied modules are filtered by `{show(ifs[0])[:60]}`")
+        src = strip_wrappers(it, ("list", "tuple", "iter"))
+        if not normalised(src, p, enc, pcf):
+            if any(x[0] == "slice" for x in subterms(it)):
+                problems.append(f"only `{show(it)[:60]}` of the supplied modules is stored")
+            elif it[0] == "call" and it[1] in ("sorted", "set", "reversed", "frozenset"):
+                problems.append(f"`{show(it)[:60]}` does not keep the supplied order")
+            elif src == p:
+                problems.append("the raw argument is iterated instead of its normalised list form")
+            else:
+                res.undecide("C16.R4", key, f"the stored filters are built from `{show(it)[:80]}`, which is not recognised as the normalised argument", e.where)
+                return
+        bv = b._first_bv(core)
+        cls = elt[1].rsplit(".", 1)[-1] if elt[0] == "new" else None
+        args = list(elt[2]) + [val for _k, val in elt[3]] if elt[0] == "new" else []
+        if cls != "ModuleNameFilter" or args != [bv]:
+            problems.append(f"each element is `{show(elt)[:60]}`, not a name filter of the supplied module")
+    ok = not problems
+    verdict(res, r, "C16.R4", key, ok, "one name filter per supplied module, whole normalised list, in order" if ok else "; ".join(problems), e.where, kind="flow")
+
+
+def value_kind(v: Term) -> str:
+    if v[0] in ("list", "tuple", "set", "dict"):
+        return v[0]
+    if v[0] == "comp":
+        return {"gen": "iterator"}.get(v[1], v[1])
+    if v[0] == "call" and isinstance(v[1], str) and v[1] in ("list", "sorted"):
+        return "list"
+    if v[0] == "call" and isinstance(v[1], str) and v[1] in ("tuple", "set", "frozenset"):
+        return v[1]
+    if v[0] == "phi":
+        a, c = value_kind(v[2]), value_kind(v[3])
+        return a if a == c else "mixed"
+    return "unknown"
+
+
+def check_marker(b: Builder, res: Result, names: list[str]) -> None:
+    """The test that recognises a pending layer must hold for every *empty* definition the builder can store."""
+    la = b.la
+    preds: list[tuple[str, Term]] = []
+    for n in names:
+        for t in b.pending_terms(b.run(n)):
+            k = b.pending(t)
+            if (k, t) not in preds:
+                preds.append((k, t))
+    kinds = {k for k, _t in preds}
+    key = f"{la.module.relpath}::{la.name}::pending-layer marker"
+    if not kinds:
+        return  # reported by [no pending layer]
+    stored = []
+    for n in names:
+        for e in b.store_events(b.run(n)):
+            stored.append((n, e, value_kind(e.data["value"])))
+    bad = []
+    unknown = []
+    if "never" in kinds:
+        t = next(t for k, t in preds if k == "never")
+        verdict(res, b.run("layer"), "C16.R3", key, False, f"`{show(t)[:120]}` does not recognise a layer with an empty definition as pending, so the next layer can be opened before it received its modules", kind="structural")
+        return
+    if "?" in kinds:
+        t = next(t for k, t in preds if k == "?")
+        res.undecide("C16.R3", key, f"the test that recognises pending layers in `{show(t)[:120]}` could not be evaluated on an empty definition")
+        return
+    for k in kinds:
+        if k == "agnostic":
+            continue
+        for n, e, vk in stored:
+            if vk == "unknown":
+                unknown.append((n, e, vk))
+            elif vk != k:
+                bad.append((n, e, vk, k))
+    if bad:
+        n, e, vk, k = bad[0]
+        verdict(res, b.run(n), "C16.R3", key, False, f"pending layers are recognised by comparing with an empty {k}, but {la.name}.{n} stores a {vk} (`{show(e.data['value'])[:60]}`): an empty definition is no longer recognised as pending, so the next layer can be opened", e.where, kind="structural")
+    elif unknown:
+        n, e, _vk = unknown[0]
+        res.undecide("C16.R3", key, f"the kind of the value stored by {la.name}.{n} (`{show(e.data['value'])[:60]}`) is not known, but pending layers are recognised by an equality test with an empty literal", e.where)
+    else:
+        res.add("C16.R3", key, True, "a layer counts as pending while its stored module sequence is empty; the emptiness test agrees with the kind of every stored value", kind="structural")
+
+
+def check_readers(b: Builder, res: Result) -> None:
+    la = b.la
+    gi = b.run("__getitem__")
+    m = gi.fi
+    p = ("param", m.param_names[1])
+    vals = [strip_wrappers(v, ("list", "tuple")) for _pc, v, _h in gi.returns]
+    ok = len(vals) == 1 and vals[0] == ("index", b.store, p) and not gi.of("raise")
+    verdict(res, gi, "C16.R4", K(m, "reads the mapping unchanged"), ok, "architecture[layer] returns the stored definition" if ok else f"architecture[layer] returns `{show(vals[0])[:80] if vals else '?'}`, not the stored definition of the layer", f"{m.relpath}:{m.node.lineno}", kind="structural")
+    st = b.run("__str__")
+    m = st.fi
+    comps = []
+    for _pc, v, _h in st.returns:
+        comps += [x for x in subterms(v) if x[0] == "comp"]
+    walks_all = False
+    problems = []
+    entry_iters = (("mcall", b.store, "items", ()), b.store, ("mcall", b.store, "keys", ()), ("mcall", b.store, "values", ()))
+    for c in comps:
+        for it, ifs in c[3]:
+            if it in entry_iters:
+                if ifs:
+                    problems.append(f"layers are filtered by `{show(ifs[0])[:60]}`")
+                else:
+                    walks_all = True
+            elif mentions(it, b.store) and any(x[0] == "slice" for x in subterms(it)):
+                problems.append(f"only `{show(it)[:60]}` is listed")
+            elif ifs and any(x[0] == "bv" for x in subterms(it)):
+                problems.append(f"modules are filtered by `{show(ifs[0])[:60]}`")
+    for _pc, v, _h in st.returns:
+        for x in subterms(v):
+            if x[0] == "slice" and any(y[0] == "comp" and mentions(y, b.store) for y in subterms(x[1])):
+                problems.append("only a slice of the layers is listed")
+    ok = walks_all and not problems and len(st.returns) == 1
+    if not ok and not problems and len(st.returns) == 1 and any(mentions(v, b.store) for _pc, v, _h in st.returns):
+        res.undecide("C16.R4", K(m, "lists all layers"), f"the way str(architecture) walks the layer mapping is not recognised: `{show(st.returns[0][1])[:160]}`", f"{m.relpath}:{m.node.lineno}")
+        return
+    verdict(res, st, "C16.R4", K(m, "lists all layers"), ok, "str(architecture) lists every layer with its modules in definition order" if ok else "str(architecture) does not list all layers and modules" + (": " + problems[0] if problems else ""), f"{m.relpath}:{m.node.lineno}", kind="structural")
+
+
+# --------------------------------------------------------------------------- R2 / R3: LayerRule
+
+
+class RuleFacts:
+    def __init__(self, repo: Repo, sx: SymExec, lr: ClassInfo) -> None:
+        self.repo, self.sx, self.lr = repo, sx, lr
+        self.runs: dict[str, Run] = {}
+
+    def run(self, name: str) -> Run:
+        if name not in self.runs:
+            self.runs[name] = self.sx.run(public_method(self.repo, self.lr, name))
+        return self.runs[name]
+
+
+def config_raises(r: Run) -> list[Event]:
+    return [e for e in r.of("raise") if e.data["cls"] == CONFIG_ERROR]
+
+
+def check_layer_rule(repo: Repo, sx: SymExec, res: Result) -> None:
+    lr = public_class(repo, "LayerRule")
+    rule_cls = public_class(repo, "Rule")
+    F = RuleFacts(repo, sx, lr)
+    enc = Enc()
+    # ---- based_on: the attribute that receives the architecture
+    bo = F.run("based_on")
+    m = bo.fi
+    ap = ("param", m.param_names[1])
+    sets = [e for e in bo.of("setattr") if e.data["obj"] == SELF and e.data["value"] == ap]
+    if len({e.data["attr"] for e in sets}) != 1:
+        raise AnalysisError(f"{m.fq}: the attribute that receives the architecture was not found")
+    arch = ("attr", SELF, sets[0].data["attr"])
+    arch_none = enc.truth(("cmp", "Is", arch, NONE_T))
+    raised = f_or([enc.pc(e.pc) for e in config_raises(bo)])
+    ok = equivalent(raised, f_not(arch_none)) and all(implies(enc.pc(e.pc), arch_none) for e in sets)
+    verdict(res, bo, "C16.R3", K(m, "architecture set once"), ok, "a second based_on raises a configuration error and leaves the architecture alone" if ok else f"based_on can replace the architecture of a rule (configuration error raised iff `{_show_f(raised)}`)", f"{m.relpath}:{m.node.lineno}", kind="decision-table")
+    # ---- layers_that: architecture first; the attribute that receives the module rule
+    lt = F.run("layers_that")
+    m = lt.fi
+    rsets = [e for e in lt.of("setattr") if e.data["obj"] == SELF and e.data["value"][0] == "obj" and e.data["value"][1] == rule_cls.fq]
+    if len({e.data["attr"] for e in rsets}) != 1:
+        raise AnalysisError(f"{m.fq}: the attribute that receives the module rule was not found")
+    rule = ("attr", SELF, rsets[0].data["attr"])
+    raised = f_or([enc.pc(e.pc) for e in config_raises(lt)])
+    ok = equivalent(raised, arch_none) and all(implies(enc.pc(e.pc), f_not(arch_none)) for e in rsets)
+    verdict(res, lt, "C16.R3", K(m, "architecture first"), ok, "layers_that requires an architecture" if ok else f"layers_that no longer requires an architecture (configuration error raised iff `{_show_f(raised)}`)", f"{m.relpath}:{m.node.lineno}", kind="decision-table")
+    # ---- the side flag of Rule: the attribute Rule.modules_that() sets to True
+    mt = sx.run(public_method(repo, rule_cls, "modules_that"))
+    flags = {e.data["attr"] for e in mt.of("setattr") if e.data["obj"] == SELF and e.data["value"] == ("const", True)}
+    if not flags:
+        flags = {e.data["attr"] for e in mt.of("setattr") if e.data["obj"] == SELF}  # whatever modules_that() marks the side with
+    if len(flags) != 1:
+        raise AnalysisError(f"{mt.fi.fq}: the flag that marks the subject side was not found ({sorted(flags)})")
+    flag = flags.pop()
+    check_are_named(repo, F, res, arch, rule, flag)
+    check_side_flag(repo, F, res, rule, rule_cls, flag)
+
+
+def _show_f(f) -> str:
+    from core.guards import show as gshow
+
+    return gshow(f)[:200]
+
+
+def own_state_sequences(repo: Repo, F: RuleFacts, res: Result, r: Run, enc: Enc, rule: Term, side: Term, S, L, started, raised, subj: list, extra: set, key: str):
+    """are_named decides on state of its own (not only on the side flag of the wrapped rule).  The public words are interpreted as
+    state transformers over (own state, side flag): starting from `__init__(); layers_that()`, every sequence of are_named / behaviour
+    words / access words (up to 5 calls) is explored on the abstract state, and in every reachable state the configuration errors of
+    are_named must be `wrapped rule on the subject side and (subject present or list)`.
+
+    Returns (subject term, required formula, reachable-states formula) when that holds, None when a verdict / undecided was recorded."""
+    from core.guards import atoms_of, evaluate
+
+    from .c16_logic import models
+
+    m = r.fi
+    where_ = f"{m.relpath}:{m.node.lineno}"
+    subject = lambda a: a[:-2] if a.startswith("len(") and a[-2] == "=" else a  # noqa: E731
+    pcs = [e.pc for e in config_raises(r)]
+    own: list[Term] = []
+    for x in subterms(tuple(pcs)):
+        if x[0] == "attr" and _rooted_at_self(x) and x != rule and x != side and x not in own and not any(y[0] in ("bv", "param") for y in subterms(x)):
+            if {subject(a) for a in atoms_of(enc.truth(x))} & extra:
+                own.append(x)
+    explained = {subject(a) for t in own for a in atoms_of(enc.truth(t))}
+    if not own or not extra <= explained:
+        missing = sorted(extra - explained)
+        res.undecide("C16.R2", key, f"the configuration errors of are_named depend on `{(missing or sorted(extra))[0]}`, which is neither the side flag, the subject of the wrapped rule, the kind of the argument nor an attribute of the layer rule (raised iff `{_show_f(raised)}`)", where_)
         return None
-    v = t.args[0].id
-    if p is not None and v != p:
+    V = [side] + own
+    lr = F.lr
+    init = F.sx.run(public_method(repo, lr, "__init__")) if repo.lookup_method(lr, "__init__") is not None else None
+    words = ["are_named"] + declared_in(repo, lr, "BehaviorBaseSpecification") + declared_in(repo, lr, "AccessSpecification")
+    blind = [n for n in ["layers_that"] + words if F.run(n).of("opaque") or F.run(n).notes]
+    if blind:
+        res.undecide("C16.R2", key, f"are_named keeps state of its own (`{show(own[0])}`), but {blind[0]} could not be followed completely", where_)
         return None
-    cls = norm(t.args[1])
-    wrap = lambda x: isinstance(x, ast.List) and len(x.elts) == 1 and dotted(x.elts[0]) == v  # noqa: E731
-    same = lambda x: dotted(x) == v or (isinstance(x, ast.Call) and dotted(x.func) == "list" and x.args and dotted(x.args[0]) == v)  # noqa: E731
-    if "str" in cls and "list" not in cls:
-        return v if wrap(e.body) and same(e.orelse) else None
-    if "str" not in cls:
-        return v if same(e.body) and wrap(e.orelse) else None
+
+    def final(t: Term, heap: dict) -> Term:
+        if t == SELF or t[0] != "attr":
+            return t
+        base = final(t[1], heap)
+        return heap.get((base, t[2]), heap.get((t[1], t[2]), ("attr", base, t[2])))
+
+    def lit(val: tuple):
+        return f_and([enc.truth(t) if v else f_not(enc.truth(t)) for t, v in zip(V, val) if v is not None])
+
+    def step(run: Run, val: tuple, constraint) -> set:
+        out = set()
+        for pc, _v, heap in run.returns:
+            base = f_and([enc.pc(pc), lit(val), constraint])
+            fins = [enc.truth(final(t, heap)) for t in V]
+            names = set(atoms_of(base))
+            for f in fins:
+                names |= atoms_of(f)
+            for env in models(names):
+                if evaluate(base, env):
+                    out.add(tuple(evaluate(f, env) for f in fins))
+        return out
+
+    from core.guards import TRUE
+
+    start = {tuple(None for _ in V)}
+    if init is not None:
+        start = step(init, tuple(None for _ in V), TRUE) or start
+    states: dict[tuple, tuple] = {}
+    for v0 in start:
+        for v1 in step(F.run("layers_that"), v0, TRUE):
+            states.setdefault(v1, ("layers_that",))
+    if not states:
+        res.undecide("C16.R2", key, "no state after layers_that() could be derived", where_)
+        return None
+    frontier = list(states)
+    for _depth in range(5):
+        nxt = []
+        for val in frontier:
+            for w in words:
+                for v2 in step(F.run(w), val, started):
+                    if v2 not in states:
+                        states[v2] = states[val] + (w,)
+                        nxt.append(v2)
+        frontier = nxt
+        if not frontier:
+            break
+    reach = f_or([lit(v) for v in states])
+    for c in subj:
+        want = f_and([S, f_or([enc.truth(c), L])])
+        bad = [v for v in states if not equivalent(raised, want, f_and([started, lit(v)]))]
+        if not bad:
+            res.add("C16.R2", key, True, f"are_named decides on `{show(own[0])}`; in all {len(states)} states reachable through layers_that / are_named / behaviour words / access words it raises a configuration error exactly when the wrapped rule is on the subject side and a subject is already present or a list is given", where_, kind="decision-table")
+            return (c, want, reach)
+    c = subj[0]
+    want = f_and([S, f_or([enc.truth(c), L])])
+    v = min((v for v in states if not equivalent(raised, want, f_and([started, lit(v)]))), key=lambda x: len(states[x]))
+    seq = "().".join(states[v]) + "()"
+    desc = ", ".join(f"`{show(t)}` is {'truthy' if b else 'falsy'}" for t, b in zip(V, v))
+    missed = satisfiable(f_and([want, f_not(raised)]), f_and([started, lit(v)]))
+    consequence = "a further (or batched) subject layer is accepted and appended to the subjects of the wrapped rule" if missed else "layers of the rule object are rejected as if they were subjects"
+    verdict(res, r, "C16.R2", key, False, f"after {seq} {desc}: are_named decides on its own state, which disagrees with the side of the wrapped rule, so {consequence} (configuration error raised iff `{_show_f(raised)}`)", where_, kind="decision-table")
     return None
 
 
-def run_r1(repo: Repo, res: Result) -> None:
-    T = types_of(repo)
-    normalisers = _normaliser_functions(repo)
-    n = 0
-    for f in repo.all_functions():
-        if isinstance(f.node, ast.Lambda) or f.is_abstract:
+def check_are_named(repo: Repo, F: RuleFacts, res: Result, arch: Term, rule: Term, flag: str) -> None:
+    r = F.run("are_named")
+    m = r.fi
+    p = ("param", m.param_names[1])
+    enc = Enc(None, {p})
+    side = ("attr", rule, flag)
+    S = enc.truth(side)
+    L = enc.truth(("isinstance", p, ("list",)))
+    none = enc.truth(("cmp", "Is", rule, NONE_T))
+    arch_none = enc.truth(("cmp", "Is", arch, NONE_T))
+    started = f_and([f_not(none), f_not(arch_none)])
+    # effects on the wrapped rule: writes / mutating calls on objects reachable from it
+    effects = [e for e in r.events if (e.kind == "setattr" and (mentions(e.data["obj"], rule) or (e.data["obj"] == SELF and ("attr", SELF, e.data["attr"]) == rule))) or (e.kind == "call" and e.data["method"] in MUTATORS and e.data["recv"] is not None and mentions(e.data["recv"], rule))]
+    subj: list[Term] = []
+    for e in effects:
+        if e.kind == "setattr" and e.data["obj"] == SELF:
             continue
-        for p in f.params:
-            if not is_union_str_list(p.annotation):
+        targets = [((), ("attr", e.data["obj"], e.data["attr"]))] if e.kind == "setattr" else list(phi_leaves(e.data["recv"]))
+        for conds, leaf in targets:
+            if not implies(enc.pc(e.pc + conds), S, started) or not satisfiable(enc.pc(e.pc + conds), started):
                 continue
-            name = p.arg
-            # statements after which `name` itself holds the normalised list
-            normalised_from: set[int] = set()
-            body_index = {id(s): i for i, s in enumerate(f.body)}
-            cut = None
-            for i, s in enumerate(f.body):
-                if isinstance(s, ast.If) and not s.orelse and isinstance(s.test, ast.Call) and dotted(s.test.func) == "isinstance" and dotted(s.test.args[0]) == name and "str" in norm(s.test.args[1]):
-                    if len(s.body) == 1 and isinstance(s.body[0], ast.Assign) and dotted(s.body[0].targets[0]) == name and isinstance(s.body[0].value, ast.List) and len(s.body[0].value.elts) == 1 and dotted(s.body[0].value.elts[0]) == name:
-                        cut = i
-                        break
-                if isinstance(s, ast.Assign) and dotted(s.targets[0]) == name and (_is_normalising_expr(s.value, name) or (isinstance(s.value, ast.Call) and isinstance(s.value.func, ast.Attribute) and s.value.func.attr in normalisers and s.value.args and dotted(s.value.args[0]) == name)):
-                    cut = i
-                    break
-            uses = [u for u in own_nodes(f.node) if isinstance(u, ast.Name) and u.id == name and isinstance(u.ctx, ast.Load)]
-            for u in uses:
-                top = u
-                for a in ancestors(u):
-                    if a in f.body:
-                        top = a
-                        break
-                idx = body_index.get(id(top), -1)
-                if cut is not None and idx > cut:
-                    continue  # after the in-place normalisation
-                par = parent(u)
-                how = None
-                # allowed raw uses
-                if isinstance(par, ast.Call) and dotted(par.func) == "isinstance" and par.args and par.args[0] is u:
-                    continue
-                if isinstance(par, ast.List) and len(par.elts) == 1:
-                    continue  # [p]
-                if isinstance(par, ast.IfExp) and _is_normalising_expr(par, name):
-                    continue
-                if isinstance(par, ast.Call) and dotted(par.func) == "list" and isinstance(parent(par), ast.IfExp) and _is_normalising_expr(parent(par), name):
-                    continue
-                if isinstance(par, ast.Call) and u in par.args:
-                    cs, _how = T.callees(f, par, byname_fallback=False)
-                    callee_union = False
-                    for c in cs:
-                        idx_a = par.args.index(u) + (1 if c.cls is not None and not c.is_staticmethod and c.outer is None and isinstance(par.func, ast.Attribute) else 0)
-                        if idx_a < len(c.params) and is_union_str_list(c.params[idx_a].annotation):
-                            callee_union = True
-                        if c.name in normalisers:
-                            callee_union = True
-                    if callee_union:
-                        continue
-                    if isinstance(par.func, ast.Attribute) and par.func.attr in normalisers:
-                        continue
-                    if dotted(par.func) in ITERATING_BUILTINS:
-                        how = f"{dotted(par.func)}({name})"
-                    elif cs:
-                        how = None  # handed to a callee with a non-union parameter: judged there if annotated, else ignored
-                        continue
-                    else:
-                        continue
-                elif isinstance(par, (ast.For, ast.comprehension)) and par.iter is u:
-                    how = f"for ... in {name}"
-                elif isinstance(par, ast.Compare) and u in par.comparators and isinstance(par.ops[0], (ast.In, ast.NotIn)):
-                    how = f"... in {name}"
-                elif isinstance(par, ast.Starred):
-                    how = f"*{name}"
-                elif isinstance(par, ast.Subscript) and par.value is u:
-                    how = f"{name}[...]"
-                elif isinstance(par, ast.Return) or isinstance(par, ast.Assign):
-                    continue
-                else:
-                    continue
-                # a guard may establish the list form
-                g = guard_formula(f, u)
-                is_list = atom(f"isinstance({name}, list)")
-                is_str = atom(f"isinstance({name}, str)")
-                if implies(g, is_list) or implies(g, f_not(is_str)) and is_str[1] in atoms_of(g):
-                    continue
-                n += 1
-                res.add(
-                    "C16.R1",
-                    repo.key(f, stmt_of(u)) + f" [{how}]",
-                    False,
-                    f"`{how}` iterates the raw `{name}: {norm(p.annotation)}` parameter: for the documented string form this iterates the *characters* of the module name",
-                    where(f, u),
-                    kind="flow",
-                )
-            n += 1
-            res.add("C16.R1", f"{f.relpath}::{f.qualname}::parameter {name}", True, f"`{name}: {norm(p.annotation)}` analysed: raw uses are type tests, the normalising expression or hand-offs to same-typed parameters", where(f, f.node), nontrivial=False)
-    res.floor("C16.R1", 4, n)
+            cands = [x for x in subterms(leaf) if x[0] == "attr" and mentions(x, rule)]
+            for c in cands:
+                if c not in subj and c != side and c != rule and not any(mentions(o, c) and o != c for o in cands):
+                    subj.append(c)
+    # are_named itself must leave the side as it found it: the guard of the *next* are_named reads the same flag, so a flag that
+    # is falsy after the subject has been stored lets a second subject layer through (filed as an object), and a flag that turns
+    # truthy on the object side makes further object layers subjects
+    skey = K(m, "side flag: unchanged by are_named")
+    moved = None
+    for pc, _v, heap in r.returns:
+        rule_after = heap.get((SELF, rule[2]), rule)
+        final = heap.get((rule_after, flag), heap.get((rule, flag)))
+        if final is None or final == side:
+            continue
+        pcf = f_and([enc.pc(pc), started])
+        if not satisfiable(pcf):
+            continue
+        if not equivalent(enc.truth(final), S, pcf):
+            moved = (final, pc)
+            break
+    if moved is not None:
+        w = [e for e in r.of("setattr") if e.data["attr"] == flag and (e.data["obj"] == rule or mentions(e.data["obj"], rule) or e.data["obj"][0] == "obj")]
+        on_subject = satisfiable(f_and([enc.pc(moved[1]), started, S, f_not(enc.truth(moved[0]))]))
+        detail = (
+            f"after are_named has stored the subject layer the side flag `{flag}` of the wrapped rule is `{show(moved[0])[:80]}`, no longer truthy: the subject guard of the next are_named (it reads the flag for its truth value) cannot fire, so a second subject layer is accepted and filed as a rule object"
+            if on_subject
+            else f"are_named turns the side flag `{flag}` of the wrapped rule into `{show(moved[0])[:80]}` on the object side: layers named afterwards are treated as subjects"
+        )
+        verdict(res, r, "C16.R2", skey, False, detail, w[0].where if w else f"{m.relpath}:{m.node.lineno}", kind="flow")
+    else:
+        verdict(res, r, "C16.R2", skey, True, "are_named leaves the subject/object side of the wrapped rule as it found it (the guard can fire again on the next call)", f"{m.relpath}:{m.node.lineno}", kind="flow")
+    # nothing may be added to the rule on a path that can still end in a configuration error
+    order = {id(e): i for i, e in enumerate(r.events)}
+    late = [(e, x) for e in effects for x in config_raises(r) if order[id(x)] > order[id(e)] and x.pc[: len(e.pc)] == e.pc]
+    if late:
+        verdict(res, r, "C16.R2", K(m, "guard before the layer is added"), False, f"`{_ev_text(late[0][0])}` changes the wrapped rule before the configuration error of `{_ev_text(late[0][1])[:60]}` can be raised: a rejected call leaves the rule modified", late[0][0].where, kind="dominance")
+    raised = f_or([enc.pc(e.pc) for e in config_raises(r) if not e.in_loop])
+    key = K(m, "exactly one subject layer")
+    hit = None
+    for c in subj:
+        want = f_and([S, f_or([enc.truth(c), L])])
+        if equivalent(raised, want, started):
+            hit = (c, want)
+    if hit is None:
+        from core.guards import atoms_of
+
+        vocab = atoms_of(S) | atoms_of(L) | atoms_of(none) | atoms_of(arch_none)
+        for c in subj:
+            vocab |= atoms_of(enc.truth(c))
+        subject = lambda a: a[:-2] if a.startswith("len(") and a[-2] == "=" else a  # noqa: E731
+        vocab = {subject(a) for a in vocab}
+        extra = sorted({subject(a) for a in atoms_of(raised)} - vocab)
+        if extra and subj:
+            got = own_state_sequences(repo, F, res, r, enc, rule, side, S, L, started, raised, subj, set(extra), key)
+            if got is None:
+                return
+            hit = got
+    if hit is None:
+        if not subj:
+            detail = f"are_named does not extend the subject of the wrapped rule on the subject side (configuration error raised iff `{_show_f(raised)}`)"
+        else:
+            detail = f"are_named raises a configuration error iff `{_show_f(raised)}` (given a started rule); required: on the subject side iff a subject is already present (`{show(subj[0])}`) or a list is given, never on the object side"
+        verdict(res, r, "C16.R2", key, False, detail, f"{m.relpath}:{m.node.lineno}", kind="decision-table")
+        return
+    if len(hit) == 2:
+        verdict(res, r, "C16.R2", key, True, "a configuration error is raised exactly when, on the subject side, a subject is already present or a list is given (truth table over started / side / subject present / argument kind)", f"{m.relpath}:{m.node.lineno}", kind="decision-table")
+    else:
+        started = f_and([started, hit[2]])  # own-state representation: only the reachable combinations of own state and side flag count
+    want = hit[1]
+    early = [e for e in effects if satisfiable(f_and([enc.pc(e.pc), want]), started)]
+    ok = not early and bool(effects)
+    if not late:
+        verdict(res, r, "C16.R2", K(m, "guard before the layer is added"), ok, "the subject guard precedes every change of the wrapped rule" if ok else (f"`{_ev_text(early[0])}` changes the rule before the subject guard has run" if early else "are_named no longer changes the wrapped rule"), early[0].where if early else f"{m.relpath}:{m.node.lineno}", kind="dominance")
+
+
+def _ev_text(e: Event) -> str:
+    from core.loader import header
+
+    return header(e.node)[:80]
+
+
+def check_side_flag(repo: Repo, F: RuleFacts, res: Result, rule: Term, rule_cls: ClassInfo, flag: str) -> None:
+    """The flag are_named reads must follow the layer-rule language: set by layers_that, untouched by the behaviour words
+    (should / should_only / should_not), cleared by the access words."""
+    lr = F.lr
+
+    def flag_writes(r: Run) -> list[Event]:
+        return [e for e in r.of("setattr") if e.data["attr"] == flag and (e.data["obj"] == rule or mentions(e.data["obj"], rule) or (e.data["obj"][0] == "obj" and e.data["obj"][1] == rule_cls.fq))]
+
+    lt = F.run("layers_that")
+    finals = [h.get((h.get((SELF, rule[2]), rule), flag)) for _pc, _v, h in lt.returns]
+    ok = bool(finals) and all(v == ("const", True) for v in finals)
+    verdict(res, lt, "C16.R2", K(lt.fi, "side flag: subject side after layers_that"), ok, "layers_that leaves the wrapped rule on the subject side" if ok else f"after layers_that the side flag `{flag}` of the wrapped rule is `{show(finals[0]) if finals and finals[0] else 'unset'}`, not True: the subject guard of are_named does not fire", f"{lt.fi.relpath}:{lt.fi.node.lineno}", kind="flow")
+    for name in declared_in(repo, lr, "BehaviorBaseSpecification"):
+        r = F.run(name)
+        w = flag_writes(r)
+        ok = not w
+        verdict(res, r, "C16.R2", K(r.fi, "side flag: untouched by the behaviour word"), ok, f"{name} leaves the subject/object side of the wrapped rule alone" if ok else f"{name} sets the side flag `{flag}` of the wrapped rule to `{show(w[0].data['value'])}`: a further subject layer named after {name}() is no longer rejected by are_named (the flag is read for its truth value)", w[0].where if w else f"{r.fi.relpath}:{r.fi.node.lineno}", kind="flow")
+    for name in declared_in(repo, lr, "AccessSpecification"):
+        r = F.run(name)
+        finals = [h.get((rule, flag)) for _pc, _v, h in r.returns]
+        ok = bool(finals) and all(v is not None and v[0] == "const" and not v[1] and v[1] is not None for v in finals)
+        verdict(res, r, "C16.R2", K(r.fi, "side flag: object side after the access word"), ok, f"{name} switches the wrapped rule to the object side" if ok else f"after {name} the side flag `{flag}` is `{show(finals[0]) if finals and finals[0] else 'unchanged'}`, not False: layers named afterwards are treated as subjects", f"{r.fi.relpath}:{r.fi.node.lineno}", kind="flow")
+
+
+# --------------------------------------------------------------------------- entry
 
 
 def run(repo: Repo) -> Result:
     res = Result("C16")
     res.explanation = (
-        "Decides the builder guards structurally, per call: (R1) every `str | list[str]` parameter is normalised to a list before anything "
-        "iterates it; (R2) LayerRule.are_named raises exactly when a (further or batched) layer is given on the subject side; (R3) the "
-        "pending-layer, duplicate-name, exactly-one-pending-layer and duplicate-module guards dominate the state writes, the duplicate check "
-        "compares materialised sets over all stored modules, and the 'pending' marker test agrees with the type of the stored values; (R4) the "
-        "stored definition is the whole normalised list in order under the pending layer and is read back unchanged."
+        "Interprets the public builder methods symbolically (helpers, properties and callables followed; accumulating loops summarised as "
+        "comprehensions) and decides per call: (R1) every `str | list[str]` value is normalised before anything iterates it; (R2) "
+        "LayerRule.are_named raises a configuration error exactly when a (further or batched) layer is given on the subject side, before the "
+        "wrapped rule is changed, and the side flag it reads follows the layer-rule language; (R3) the pending-layer, unique-name, "
+        "exactly-one-pending-layer and duplicate-module guards hold on every path that writes the layer mapping, the duplicate check compares "
+        "the whole normalised argument with the materialised identifiers of all stored filters, and the 'pending' test agrees with the kind of "
+        "the stored values; based_on / layers_that guard the architecture; (R4) the stored definition is the order-preserving image of the "
+        "whole normalised list under the single pending layer and is read back unchanged."
     )
-    res.not_decided = "call sequences longer than one call are covered only through the guards' formulas (no sequence exploration)."
-    res.trusted_base = ["engine CFG / guard formulas / resolver"]
+    res.not_decided = "call sequences longer than one call are covered only through the per-call guards (no sequence exploration); reads of the layer mapping after a write inside the same call see the old contents."
+    res.trusted_base = ["engine symbolic executor (rules/c16_sym.py) / annotation-driven call resolver"]
     T = types_of(repo)
-    run_r1(repo, res)
-    la = repo.cls(LAYER_RULE, "LayeredArchitecture")
-    lr = repo.cls(LAYER_RULE, "LayerRule")
-    store = "self._modules_by_layer_name"
-    # ---- R2
-    an = lr.methods.get("are_named")
-    if an is None:
-        raise AnalysisError("LayerRule.are_named not found")
-    lp = an.param_names[1]
-    NONE = atom("self._rule is None")
-    S = atom("bool(self._rule._modules_to_check_to_be_specified_next)")
-    P = atom("bool(self._rule.rule_subjects)")
-    L = atom(f"isinstance({lp}, list)")
-    raises = [r for r in own_nodes(an.node) if isinstance(r, ast.Raise)]
-    want = f_and([S, f_or([P, L])])
-    hit = None
-    for r in raises:
-        g = guard_formula(an, r)
-        extra = atoms_of(g) - {NONE[1], S[1], P[1], L[1]}
-        if extra:
-            continue
-        if equivalent(g, want, constraints=f_not(NONE)) and not implies(f_not(NONE), f_not(g)):
-            hit = r
-    others = [r for r in raises if not equivalent(guard_formula(an, r), NONE)]
-    if hit is None and others:
-        g = guard_formula(an, others[0])
-        extra = sorted(atoms_of(g) - {NONE[1], S[1], P[1], L[1]})
-        detail = f"the subject guard of are_named is `{show(g)}`; required (given a started rule): on the subject side raise iff a subject is already present or a list is given, never on the object side" + (f" [reads {extra}]" if extra else "")
-    elif hit is None:
-        detail = "are_named has no guard limiting the subject to exactly one layer"
-    else:
-        detail = "raises exactly when, on the subject side, a subject is already present or a list is given (8-row truth table)"
-    res.add("C16.R2", f"{an.relpath}::{an.qualname}::exactly one subject layer", hit is not None, detail, where(an, hit or an.node), kind="decision-table")
-    # the guard must run before the modules are added
-    adds = [c for c in calls_in(an.node) if is_attr_call(c, "_add_modules")]
-    if hit is not None and adds:
-        p = parent(hit)
-        ok = cfg_of(an).dominates(p if isinstance(p, ast.If) else hit, stmt_of(adds[0]))
-        res.add("C16.R2", f"{an.relpath}::{an.qualname}::guard before the layer is added", ok, "the subject guard dominates the extension of the rule" if ok else "modules are added to the rule before the subject guard runs", where(an, adds[0]), kind="dominance")
-    # ---- R3
-    pend = la.methods.get("_get_layers_without_modules")
-    if pend is None:
-        raise AnalysisError("LayeredArchitecture._get_layers_without_modules not found")
-    tests = [c for c in ast.walk(pend.node) if isinstance(c, ast.comprehension) for _ in [0]]
-    cond = None
-    for c in ast.walk(pend.node):
-        if isinstance(c, ast.comprehension) and c.ifs:
-            cond = c.ifs[0]
-    if cond is None:
-        raise AnalysisError(f"{pend.fq}: emptiness condition of pending layers not recognised")
-    type_agnostic = (isinstance(cond, ast.UnaryOp) and isinstance(cond.op, ast.Not)) or (isinstance(cond, ast.Compare) and isinstance(cond.left, ast.Call) and dotted(cond.left.func) == "len")
-    eq_list = isinstance(cond, ast.Compare) and isinstance(cond.ops[0], ast.Eq) and isinstance(cond.comparators[0], ast.List) and not cond.comparators[0].elts
-    # every value stored into the mapping must then be a list
-    stored_kinds = []
-    for m in la.methods.values():
-        for s in own_nodes(m.node):
-            if isinstance(s, ast.Assign) and isinstance(s.targets[0], ast.Subscript) and dotted(s.targets[0].value) == store:
-                stored_kinds.append((m, s, _value_kinds(repo, T, m, s.value)))
-    ok = type_agnostic or (eq_list and all(k <= {"list"} for _m, _s, k in stored_kinds))
-    bad = [(m, s, k) for m, s, k in stored_kinds if not k <= {"list"}]
-    res.add(
-        "C16.R3",
-        f"{pend.relpath}::{pend.qualname}::pending-layer marker",
-        ok,
-        "a layer counts as pending while its (list-typed) module sequence is empty" if ok else f"pending layers are recognised by `{norm(cond)}`, but `{header(bad[0][1]) if bad else '?'}` stores a {sorted(bad[0][2]) if bad else '?'}: an empty definition is no longer recognised as pending, so the next layer can be opened",
-        where(pend, pend.node),
-        kind="structural",
-    )
-    ly = la.methods.get("layer")
-    st = [s for s in own_nodes(ly.node) if isinstance(s, ast.Assign) and isinstance(s.targets[0], ast.Subscript) and dotted(s.targets[0].value) == store]
-    if len(st) != 1:
-        raise AnalysisError("LayeredArchitecture.layer: store of the new layer not found")
-    g = guard_formula(ly, st[0])
-    namep = ly.param_names[1]
-    pend_var = None
-    for s in own_nodes(ly.node):
-        if isinstance(s, ast.Assign) and isinstance(s.value, ast.Call) and is_attr_call(s.value, pend.name):
-            pend_var = dotted(s.targets[0])
-    ok1 = pend_var is not None and implies(g, f_not(truth(ly, pend_var)))
-    ok2 = implies(g, f_not(atom(f"{namep} in {store}")))
-    res.add("C16.R3", repo.key(ly, st[0]) + " [no pending layer]", ok1, "a new layer is opened only when no layer is waiting for its modules" if ok1 else "a new layer can be opened while another layer still has no modules", where(ly, st[0]), kind="dominance")
-    res.add("C16.R3", repo.key(ly, st[0]) + " [unique name]", ok2, "a layer name can be defined once" if ok2 else "a layer name can be defined twice (the second definition replaces the first)", where(ly, st[0]), kind="dominance")
-    ok3 = isinstance(st[0].value, ast.List) and not st[0].value.elts and dotted(st[0].targets[0].slice) == namep
-    res.add("C16.R3", repo.key(ly, st[0]) + " [opens empty]", ok3, "the new layer starts without modules" if ok3 else "the new layer is not opened as an empty definition under its own name", where(ly, st[0]), nontrivial=False)
-    for mname in ("containing_modules", "have_modules_with_names_matching"):
-        m = la.methods.get(mname)
-        if m is None:
-            raise AnalysisError(f"LayeredArchitecture.{mname} not found")
-        st = [s for s in own_nodes(m.node) if isinstance(s, ast.Assign) and isinstance(s.targets[0], ast.Subscript) and dotted(s.targets[0].value) == store]
-        if len(st) != 1:
-            raise AnalysisError(f"{m.fq}: store of the layer's modules not found")
-        lw = None
-        for s in own_nodes(m.node):
-            if isinstance(s, ast.Assign) and isinstance(s.value, ast.Call) and is_attr_call(s.value, pend.name):
-                lw = dotted(s.targets[0])
-        g = guard_formula(m, st[0])
-        ok = lw is not None and implies(g, f_and([truth(m, lw), f_not(truth(m, f"len({lw}) > 1"))]))
-        res.add("C16.R3", repo.key(m, st[0]) + " [exactly one pending layer]", ok, "modules are stored only when exactly one layer is pending" if ok else f"modules can be stored although not exactly one layer is pending (guard: {show(g)})", where(m, st[0]), kind="dominance")
-        key = st[0].targets[0].slice
-        ok = isinstance(key, ast.Subscript) and dotted(key.value) == lw and isinstance(key.slice, ast.Constant) and key.slice.value == 0
-        res.add("C16.R4", repo.key(m, st[0]) + " [stored under the pending layer]", ok, "stored under the single pending layer" if ok else f"the modules are stored under `{norm(key)}`, not under the pending layer", where(m, st[0]), kind="structural")
-    # duplicate-module guard
-    cm = la.methods["containing_modules"]
-    st = [s for s in own_nodes(cm.node) if isinstance(s, ast.Assign) and isinstance(s.targets[0], ast.Subscript) and dotted(s.targets[0].value) == store][0]
-    raises = [r for r in own_nodes(cm.node) if isinstance(r, ast.Raise)]
-    dup_raise = [r for r in raises if any("assigned" in str(c.value) for c in ast.walk(r) if isinstance(c, ast.Constant) and isinstance(c.value, str))]
-    ok = False
-    detail = "no duplicate-module guard found"
-    if dup_raise:
-        r = dup_raise[0]
-        gcs = conds(cm, r)
-        dv = next((dotted(e) for e, pol in gcs if pol and isinstance(e, ast.Name)), None)
-        detail = "the duplicate guard is not `if <set of duplicates>: raise` before the store"
-        if dv is not None:
-            asg = [s for s in own_nodes(cm.node) if isinstance(s, ast.Assign) and dotted(s.targets[0]) == dv]
-            if len(asg) == 1:
-                v = asg[0].value
-                ops = []
-                if isinstance(v, ast.Call) and isinstance(v.func, ast.Attribute) and v.func.attr == "intersection" and len(v.args) == 1:
-                    ops = [v.func.value, v.args[0]]
-                elif isinstance(v, ast.BinOp) and isinstance(v.op, ast.BitAnd):
-                    ops = [v.left, v.right]
-                if len(ops) == 2:
-                    kinds = [{kind(x) for x in members(T.expr(cm, o))} for o in ops]
-                    mat = all(k <= {"set", "frozenset", "list"} and k for k in kinds)
-                    # one operand = the new modules (normalised), the other = identifiers of all stored filters
-                    texts = [_origin_text(cm, o) for o in ops]
-                    covers_all = any(".values()" in t and "identifier" in t and " if " not in t for t in texts)
-                    ok = mat and covers_all and cfg_of(cm).dominates(parent(r) if isinstance(parent(r), ast.If) else r, st)
-                    detail = "new modules are intersected with the identifiers of all stored module filters (materialised sets) before the store" if ok else (
-                        f"the duplicate check intersects `{norm(ops[0], 40)}` ({sorted(kinds[0])}) with `{norm(ops[1], 40)}` ({sorted(kinds[1])}): " + ("an operand is a one-shot iterator" if not mat else "it does not cover the modules of all layers")
-                    )
-                elif isinstance(v, (ast.ListComp, ast.SetComp)) or (isinstance(v, ast.Call) and v.args and isinstance(v.args[0], (ast.ListComp, ast.SetComp, ast.GeneratorExp))):
-                    # membership form: [m for m in <new modules> if m in <all stored identifiers>]
-                    cmp_ = v if isinstance(v, (ast.ListComp, ast.SetComp)) else v.args[0]
-                    tests = [c for g_ in cmp_.generators for c in g_.ifs if isinstance(c, ast.Compare) and isinstance(c.ops[0], ast.In)]
-                    if len(tests) == 1:
-                        E_ = tests[0].comparators[0]
-                        k_ = {kind(x) for x in members(T.expr(cm, E_))}
-                        mat = bool(k_) and k_ <= {"set", "frozenset", "list", "dict"}
-                        txt = _origin_text(cm, E_)
-                        covers_all = ".values()" in txt and "identifier" in txt and " if " not in txt
-                        ok = mat and covers_all and cfg_of(cm).dominates(parent(r) if isinstance(parent(r), ast.If) else r, st)
-                        detail = "every new module is looked up in the materialised identifiers of all stored filters before the store" if ok else f"duplicates are computed as `{norm(v, 80)}`: " + (f"`{norm(E_, 40)}` is a one-shot iterator ({sorted(k_)}) that is exhausted by the first membership test" if not mat else "the lookup does not cover the modules of all layers")
-                else:
-                    # every container consulted must be materialised
-                    gens = [n_ for n_ in own_nodes(cm.node) if isinstance(n_, ast.Assign) and isinstance(n_.value, ast.GeneratorExp)]
-                    detail = f"duplicates are computed as `{norm(v, 80)}`" + (f"; `{dotted(gens[0].targets[0])}` is a generator that is exhausted by the first membership test" if gens else "")
-    res.add("C16.R3", f"{cm.relpath}::{cm.qualname}::duplicate-module guard", ok, detail, where(cm, dup_raise[0] if dup_raise else cm.node), kind="dominance")
-    # based_on twice / layers_that without architecture are C13.R2 obligations as well; keep one here for the builder clause
-    bo = lr.methods.get("based_on")
-    raises = [r for r in own_nodes(bo.node) if isinstance(r, ast.Raise)]
-    ok = any(equivalent(guard_formula(bo, r), f_not(atom("self._architecture is None"))) for r in raises)
-    res.add("C16.R3", f"{bo.relpath}::{bo.qualname}::architecture set once", ok, "a second based_on raises" if ok else "based_on can replace the architecture of a rule", where(bo, bo.node), kind="decision-table")
-    lt = lr.methods.get("layers_that")
-    raises = [r for r in own_nodes(lt.node) if isinstance(r, ast.Raise)]
-    ok = any(equivalent(guard_formula(lt, r), atom("self._architecture is None")) for r in raises)
-    res.add("C16.R3", f"{lt.relpath}::{lt.qualname}::architecture first", ok, "layers_that requires an architecture" if ok else "layers_that no longer requires an architecture", where(lt, lt.node), kind="decision-table")
-    # ---- R4
-    tm = la.methods.get("_to_module_objects")
-    if tm is None:
-        raise AnalysisError("LayeredArchitecture._to_module_objects not found")
-    rets = [s for s in own_nodes(tm.node) if isinstance(s, ast.Return)]
-    comp = rets[0].value if len(rets) == 1 else None
-    inner = comp.args[0] if isinstance(comp, ast.Call) and dotted(comp.func) in ("list", "tuple") and comp.args else comp
-    ok = isinstance(inner, (ast.ListComp, ast.GeneratorExp)) and len(inner.generators) == 1 and not inner.generators[0].ifs and dotted(inner.generators[0].iter) == tm.param_names[1] and isinstance(inner.elt, ast.Call) and dotted(inner.elt.func) == "ModuleNameFilter" and dotted((inner.elt.keywords[0].value if inner.elt.keywords else inner.elt.args[0])) == dotted(inner.generators[0].target)
-    res.add("C16.R4", f"{tm.relpath}::{tm.qualname}::order-preserving image", ok, "one name filter per supplied module, in order" if ok else "the stored filters are not the order-preserving image of all supplied modules", where(tm, tm.node), kind="structural")
-    stc = [s for s in own_nodes(cm.node) if isinstance(s, ast.Assign) and isinstance(s.targets[0], ast.Subscript) and dotted(s.targets[0].value) == store][0]
-    val = stc.value
-    arg = val.args[0] if isinstance(val, ast.Call) and val.args else None
-    norm_var = None
-    for s in own_nodes(cm.node):
-        if isinstance(s, ast.Assign) and _is_normalising_expr(s.value, cm.param_names[1]):
-            norm_var = dotted(s.targets[0])
-    ok = isinstance(val, ast.Call) and is_attr_call(val, tm.name) and arg is not None and dotted(arg) == norm_var
-    res.add("C16.R4", repo.key(cm, stc) + " [whole normalised list]", ok, "the whole normalised list is stored" if ok else f"`{norm(val)}` does not store the whole normalised module list", where(cm, stc), kind="flow")
-    gi = la.methods.get("__getitem__")
-    rets = [s for s in own_nodes(gi.node) if isinstance(s, ast.Return)] if gi else []
-    ok = len(rets) == 1 and isinstance(rets[0].value, ast.Subscript) and dotted(rets[0].value.value) == store and dotted(rets[0].value.slice) == gi.param_names[1]
-    res.add("C16.R4", f"{la.module.relpath}::LayeredArchitecture.__getitem__::reads the mapping unchanged", ok, "architecture[layer] returns the stored definition" if ok else "architecture[layer] does not return the stored definition unchanged", kind="structural")
-    sm = la.methods.get("__str__")
-    ok = sm is not None and any(isinstance(n_, ast.Call) and is_attr_call(n_, "items") and dotted(n_.func.value) == store for n_ in ast.walk(sm.node)) and not any(isinstance(n_, ast.comprehension) and n_.ifs for n_ in ast.walk(sm.node))
-    res.add("C16.R4", f"{la.module.relpath}::LayeredArchitecture.__str__::lists all layers", ok, "str(architecture) lists every layer with its modules in definition order" if ok else "str(architecture) does not list all layers and modules", kind="structural")
+    run_r1(repo, T, res)
+    sx = SymExec(repo, T)
+    la = public_class(repo, "LayeredArchitecture")
+    b = Builder(repo, sx, la)
+    b.find_store()
+    b.find_name_attrs()
+    check_layer(b, res)
+    writers = [("containing_modules", True), ("have_modules_with_names_matching", False)]
+    for name, union in writers:
+        check_modules_method(b, res, name, union)
+    check_marker(b, res, ["layer"] + [n for n, _u in writers])
+    check_readers(b, res)
+    check_layer_rule(repo, sx, res)
+    notes = sorted({n for r in b.runs.values() for n in r.notes})
+    for n in notes:
+        res.observe(f"executor note: {n}")
     return res
-
-
-def _value_kinds(repo: Repo, T, f: FuncInfo, e: ast.expr) -> set[str]:
-    """Kinds (list / tuple / set / ...) of the objects an expression can evaluate to, looking through repo helper calls."""
-    if isinstance(e, ast.Call):
-        cs, _ = T.callees(f, e, byname_fallback=False)
-        if cs:
-            out: set[str] = set()
-            for c in cs:
-                for r in own_nodes(c.node):
-                    if isinstance(r, ast.Return) and r.value is not None:
-                        out |= _value_kinds(repo, T, c, r.value)
-            return out or {"unknown"}
-    return {kind(x) for x in members(T.expr(f, e))}
-
-
-def _origin_text(f: FuncInfo, e: ast.expr, depth: int = 0) -> str:
-    if isinstance(e, ast.Name) and depth < 3:
-        a = [s for s in own_nodes(f.node) if isinstance(s, ast.Assign) and dotted(s.targets[0]) == e.id]
-        if len(a) == 1:
-            return _origin_text(f, a[0].value, depth + 1)
-    return norm(e, 400)
